@@ -14,6 +14,152 @@ from prove import Job
 PS = 'include/oneapi/tbb/parallel_sort.h'
 DEREF = r'\*\(?((?:\w+|\w+ [-+] \w+))\)?'
 
+PR = 'include/oneapi/tbb/parallel_reduce.h'
+PT = 'include/oneapi/tbb/partitioner.h'
+CFG = 'include/oneapi/tbb/detail/_config.h'
+
+
+def targs(s):
+    """split template / call arguments at top-level commas (angle brackets nest too)"""
+    out, d, cur = [], 0, []
+    for ch in s:
+        if ch in '(<[{':
+            d += 1
+        elif ch in ')>]}':
+            d -= 1
+        if ch == ',' and d == 0:
+            out.append(''.join(cur).strip())
+            cur = []
+        else:
+            cur.append(ch)
+    if ''.join(cur).strip() or out:
+        out.append(''.join(cur).strip())
+    return out
+
+
+def ttag(t):
+    """type text -> enum tag (cv-qualifiers and references carry no identity)"""
+    t = re.sub(r'\bconst\b|&', ' ', t)
+    return 'TT_' + re.sub(r'\W+', '_', t.strip()).strip('_')
+
+
+def extract_dispatch(ctx, sliced, fired):
+    """every public overload of parallel_reduce / parallel_deterministic_reduce -> one C function ov_<i> + a descriptor row that is derived from the SIGNATURE only"""
+    rw = Rewriter('reduce_dispatch')
+    if not re.search(r'#define __TBB_DEFAULT_PARTITIONER tbb::auto_partitioner\b', load(CFG)):
+        raise ExtractionBreak('__TBB_DEFAULT_PARTITIONER is no longer tbb::auto_partitioner')
+    text = load(PR)
+    mk = cxx2c.mask(text)
+    ovs = []
+    for name, least in (('parallel_reduce', 20), ('parallel_deterministic_reduce', 12)):
+        hits = list(re.finditer(r'\b(void|Value)\s+%s\s*\(' % name, mk))
+        rw._rec('overloads of ' + name, len(hits), least)
+        for h in hits:
+            o = h.end() - 1
+            c = cxx2c.match_close(mk, o, '(', ')')
+            b = mk.find('{', c)
+            if mk[c + 1:b].strip():
+                raise ExtractionBreak('%s:%d: unexpected text between the parameter list and the body' % (PR, cxx2c.line_of(text, h.start())))
+            e = cxx2c.match_close(mk, b)
+            params = []
+            for prm in targs(text[o + 1:c]):
+                pm = re.fullmatch(r'\s*(const\s+)?(\w+)\s*&\s*(\w+)\s*', prm)
+                if not pm:
+                    raise ExtractionBreak('%s: parameter %r of %s is not a reference to a named type' % (PR, prm, name))
+                params.append((pm.group(2), pm.group(3)))
+            ovs.append({'name': name, 'ret': h.group(1), 'params': params, 'body': cxx2c.strip_comments(text[b:e + 1]), 'line': cxx2c.line_of(text, h.start())})
+    known = {'Range': 'range', 'Body': 'body', 'Value': 'identity', 'RealBody': 'real_body', 'Reduction': 'reduction', 'task_group_context': 'context',
+             'simple_partitioner': 'p_simple_partitioner', 'auto_partitioner': 'p_auto_partitioner', 'static_partitioner': 'p_static_partitioner', 'affinity_partitioner': 'p_affinity_partitioner'}
+    for i, ov in enumerate(ovs):
+        ov['i'] = i
+        ov['key'] = (ov['name'], tuple(t for t, _ in ov['params']))
+        for t, _ in ov['params']:
+            if t not in known:
+                raise ExtractionBreak('%s:%d: parameter type %s is not in the harness vocabulary' % (PR, ov['line'], t))
+    bykey = {}
+    for ov in ovs:
+        if ov['key'] in bykey:
+            raise ExtractionBreak('two overloads with the same parameter types: %r' % (ov['key'],))
+        bykey[ov['key']] = ov
+    out, rows, tramp = [], [], []
+    for ov in ovs:
+        ptypes = dict((n, t) for t, n in ov['params'])
+        lam = 'Body' not in [t for t, _ in ov['params']]
+        sliced.append('%s:%d %s(%s)' % (PR, ov['line'], ov['name'], ', '.join(t for t, _ in ov['params'])))
+        t = ov['body']
+        t = t.replace('__TBB_DEFAULT_PARTITIONER', 'auto_partitioner')
+        # local lambda body object
+        t = rw.sub(t, r'lambda_reduce_body<\s*Range\s*,\s*Value\s*,\s*RealBody\s*,\s*Reduction\s*>\s+body\(([^;]*)\);',
+                   r'struct lambda_reduce_body body; lambda_reduce_body_ctor(&body, \1);', 0, 1, name='local lambda_reduce_body object + constructor call')
+        local_body = 'struct lambda_reduce_body body;' in t
+
+        def argc(a):
+            a = a.strip()
+            tm = re.fullmatch(r'(\w+)\(\)', a)
+            if tm:
+                return 'TEMP(%s)' % tm.group(1), tm.group(1)          # a temporary of that class
+            if a == 'body' and local_body:
+                return '&body', 'lambda_reduce_body'
+            if a in ptypes:
+                return a, ptypes[a]                                   # reference parameter, now a pointer
+            raise ExtractionBreak('%s:%d: argument %r is neither a parameter nor a temporary' % (PR, ov['line'], a))
+
+        def runfn(mm):
+            ta = targs(mm.group(2))
+            if len(ta) != 3:
+                raise ExtractionBreak('%s:%d: %s<> with %d template arguments' % (PR, ov['line'], mm.group(1), len(ta)))
+            args = [argc(a)[0] for a in targs(mm.group(3))]
+            if len(args) not in (3, 4):
+                raise ExtractionBreak('%s:%d: run() with %d arguments' % (PR, ov['line'], len(args)))
+            return 'STUB_run%d(K_%s, %s, %s);' % (len(args), mm.group(1), ', '.join(ttag(x) for x in ta), ', '.join(args))
+        t, n = re.subn(r'(?s)\b(start_\w+)\s*<(.*?)>\s*::\s*run\s*\((.*?)\)\s*;', runfn, t)
+        rw._rec('start_X<R,B,P>::run(args) -> STUB_runN(K_start_X, tags of R,B,P, args)', n, 0)
+
+        def fwd(mm, a):
+            conv = [argc(x) for x in a]
+            key = (mm.group(1), tuple(ty for _, ty in conv))
+            if key not in bykey:
+                raise ExtractionBreak('%s:%d: call %s%r resolves to no overload' % (PR, ov['line'], mm.group(1), key[1]))
+            return 'ov_%d(%s)' % (bykey[key]['i'], ', '.join(x for x, _ in conv))
+        t = rw.call(t, r'\b(parallel_reduce|parallel_deterministic_reduce)', fwd, 0, name='call of another overload -> ov_<j> (resolved by exact parameter types)')
+        t = rw.sub(t, r'return std::move\(body\)\.result\(\);', 'return lambda_reduce_body_result(&body);', 0, name='std::move(body).result()')
+        cparams = ', '.join('struct %s* %s' % (ty, nm) for ty, nm in ov['params'])
+        out.append('static %s ov_%d(%s) %s' % (ov['ret'], ov['i'], cparams, t))
+        part = [ty for ty, _ in ov['params'] if ty.endswith('_partitioner')]
+        if len(part) > 1:
+            raise ExtractionBreak('%s:%d: two partitioner parameters' % (PR, ov['line']))
+        hasctx = int('task_group_context' in [ty for ty, _ in ov['params']])
+        sig = '%s(%s)' % (ov['name'], ', '.join(ty for ty, _ in ov['params']))
+        rows.append('  X(%d, ov_%d, N_%s, %s, %s, %d, "%s") \\' % (ov['i'], ov['i'], ov['name'], 'FORM_LAMBDA' if lam else 'FORM_BODY', ttag(part[0]) if part else 'TT_none', hasctx, sig))
+        callargs = ', '.join('A->%s' % known[ty] for ty, _ in ov['params'])
+        tramp.append('static Value call_ov_%d(struct ov_args* A) { %sov_%d(%s);%s }' % (ov['i'], 'return ' if ov['ret'] == 'Value' else '', ov['i'], callargs, '' if ov['ret'] == 'Value' else ' return 0;'))
+    protos = ['static %s ov_%d(%s);' % (ov['ret'], ov['i'], ', '.join('struct %s* %s' % (ty, nm) for ty, nm in ov['params'])) for ov in ovs]
+    common.write(ctx, 'dispatch.inc', '\n'.join(protos) + '\n' + '\n'.join(out) + '\n' + '\n'.join(tramp) + '\n#define C06_N_OVERLOADS %d\n#define C06_OVERLOADS(X) \\\n' % len(ovs) + '\n'.join(rows) + '\n\n')
+    fired['reduce_dispatch'] = rw.fired
+    return len(ovs)
+
+
+def extract_fold(ctx, sliced, fired):
+    """partitioner.h: fold_tree<TreeNodeType> -> C with the ref-count operations as RG sites"""
+    rw = Rewriter('fold_tree')
+    s = slice_block(PT, r'void fold_tree\(node\* n, const execution_data& ed\)')
+    sliced.append('%s:%d fold_tree<TreeNodeType>' % (PT, s.line))
+    t = rw.sub(s.text, r'void fold_tree\(node\* n, const execution_data& ed\)', 'void fold_tree(node* n, const execution_data* ed)', 1, 1, name='sig (ref-param -> pointer)')
+    t = rw.sub(t, r'call_itt_task_notify\((?:releasing|acquired), n\);', 'RG_NOP();', 0, name='ITT notification -> RG_NOP')
+    t = rw.atomics(t, ['m_ref_count'], 0)
+    t = rw.sub(t, r'\bn->my_parent\b', 'NODE_PARENT(n)', 0, name='field read through an accessor macro (tree represented by a per-level array)')
+    t = rw.sub(t, r'\bself->join\(ed\.context\);', 'TreeNodeType_join(self, ed->context);', 0, name='method call -> function (stub: proved separately, jobs reduce.join.*)')
+    t = rw.sub(t, r'\bself->m_allocator\.delete_object\(self, ed\);', 'STUB_delete_node(self, ed);', 0, name='callee stub (small_object_allocator::delete_object: destroys and frees the node)')
+    t = rw.sub(t, r'static_cast<wait_node\*>\(n\)->m_wait\.release\(\);', 'STUB_wait_release(((wait_node*)(n)));', 0, name='callee stub (wait_context::release)')
+    t = rw.sub(t, r'\bed\.', 'ed->', 0, name='ref-param')
+    t = rw.casts(t, 0)
+    t = rw.asserts(t, 0)
+    t = rw.std(t)
+    t = rw.number_sites(t, 'fold', by_kind=True)
+    t = tag_loops(t, 'fold', rw, expect=1)
+    common.write(ctx, 'fold.inc', t + '\n')
+    fired['fold_tree'] = rw.fired
+
 
 def extract(ctx):
     sliced, fired = [], {}
@@ -68,12 +214,18 @@ def extract(ctx):
 
 def build(ctx):
     sliced, fired = extract(ctx)
+    nov = extract_dispatch(ctx, sliced, fired)
+    extract_fold(ctx, sliced, fired)
     C = os.path.join(HERE, 'c06.c')
     jobs = [
-        Job('sort.probe_coverage', C, 'h_probe', route='LC', loops=True, nloops=1, unwind=12, timeout=600,
+        Job('reduce.fold_tree', C, 'h_fold', route='RG', loops=True, nloops=1, defines=['FOLD'], target='fold_tree<TreeNodeType> (any tree depth, any number of concurrently finishing children)', source=PT,
+            inputs=['IN_depth', 'IN_start', 'IN_k', 'IN_others'], timeout=300),
+        Job('reduce.dispatch', C, 'h_reduce_dispatch', route='LF', defines=['DISPATCH'], target='all %d public overloads of parallel_reduce / parallel_deterministic_reduce' % nov, source=PR, inputs=['IN_overload'],
+            must_have=['parallel_deterministic_reduce(Range, Value, RealBody, Reduction, static_partitioner, task_group_context) ends in the runner']),
+        Job('sort.probe_coverage', C, 'h_probe', route='LC', loops=True, nloops=1, unwind=12, timeout=600, defines=['SORT'],
             target='parallel_quick_sort (serial probe, unwound 9) + quick_sort_pretest_body::operator() (loop contract): every adjacent pair is examined', source=PS),
-        Job('sort.dispatch', C, 'h_dispatch', route='LF', target='parallel_sort(begin,end,comp) dispatch', source=PS),
-        Job('sort.median_of_three', C, 'h_median', route='LF', target='quick_sort_range::median_of_three', source=PS),
+        Job('sort.dispatch', C, 'h_dispatch', route='LF', defines=['SORT'], target='parallel_sort(begin,end,comp) dispatch', source=PS),
+        Job('sort.median_of_three', C, 'h_median', route='LF', defines=['SORT'], target='quick_sort_range::median_of_three', source=PS),
     ]
     return {
         'jobs': jobs, 'sliced': sliced, 'fired': fired,
